@@ -32,6 +32,7 @@ CONFIG = dict(
         dict(prop="C09", quick_cases=600, thorough_cases=40000, release=False),
         dict(prop="C12", quick_cases=1000, thorough_cases=60000, release=False),
         dict(prop="C19", quick_cases=300, thorough_cases=20000, release=False),
+        dict(prop="C15", quick_cases=800, thorough_cases=60000, release=False),
     ],
     fails=fails,
     rule="union of the component generators (see the evidence of each component property) and the walker inputs (2 demo DLLs, 11 tiny files, 217 corkami files; 0..6 field-level corruptions; truncations; file and mapped), every buffer placed in an mmap region between two PROT_NONE pages: flush against the end guard (exactly when (place+len) mod 16 = 0, else within 15 bytes as the requested alignment class place in {0,4,8,12} demands) and, in a second pass, directly after the start guard. A case fails when the worker dies by a signal (SIGSEGV/SIGBUS on a guard page, SIGABRT from a std UB check) or a returned borrow lies outside the buffer or is misaligned. Non-trivial: as defined by each component.",
